@@ -34,6 +34,29 @@ def run_triples(rep, language, props_note=""):
     rep.extra[f"triples_{language}"] = dict(constructible=n, rejected_by_real_constructors=rejected, exhaustive=True)
 
 
+def run_quads(rep, language, tier="quick"):
+    """Depth-3 trees: exhaustive over the stated finite family (operator pairs x sensitive children; all children in the
+    thorough tier)."""
+    from runtime.unparse import quads, roundtrip
+
+    n = rejected = 0
+    for key, tree, err in quads(full=(tier != "quick")):
+        if tree is None:
+            rejected += 1
+            continue
+        n += 1
+        ok, text, got, want, e = roundtrip(tree, language)
+        name = f"unparse[{language}] depth-3 {key}: parse(format(tree)) == tree"
+        if ok:
+            rep.ob(name, "proved", "exhaustive-finite", "exhaustive", sample=dict(tree=key, text=text) if n == 7 else None)
+        else:
+            rep.violation(f"quad:{language}:{key}", f"{language} formatter: {key} prints {text!r} which "
+                          f"{'does not parse' if got is None else 'parses to a different tree'} {e or ''}",
+                          dict(obligation=name, text=text, parsed=repr(got), tree=repr(want), error=e,
+                               how_to_replay=f"runtime.unparse.roundtrip(tree for {key}, {language!r})"))
+    rep.extra[f"depth3_{language}"] = dict(constructible=n, rejected_by_real_constructors=rejected, family="operator pairs x " + ("all children" if tier != "quick" else "sensitive children"))
+
+
 def format_precisions(path, qual="Formatter._format_number"):
     """Precisions p of the ':.p' format specs in the real _format_number."""
     from pyvc.interp import find_def
@@ -91,6 +114,33 @@ def literal_precision(rep, tier, seed):
                                how_to_replay="float(Formatter('float64')._format_number(x)) vs x"))
         else:
             rep.undecide(name, "sufficient condition fails but no witness found")
+    # every scalar type: literals and table values printed by the real formatter read back within one ulp of the REAL
+    # type of that scalar type (witnesses 1 + k*ulp cover every last-digit pattern near 1; exhaustive over k < 64)
+    import numpy as np
+
+    for st, real in (("float32", np.float32), ("float64", np.float64), ("complex64", np.float32), ("complex128", np.float64)):
+        f2 = Formatter(st)
+        eps = float(np.finfo(real).eps)
+        worst = None
+        for k in list(range(1, 64)) + [3 * 2 ** j + 1 for j in range(3, 20)]:
+            for base in (1.0, 1.0 / 3.0, 0.1, 2.0 / 3.0):
+                x = float(real(base) * real(1.0 + k * eps))
+                cases = [(f2._format_number(x), x)]
+                if st.startswith("complex"):
+                    cases.append((f2._format_number(complex(x, -x)), x))
+                for txt, want in cases:
+                    nums = [float(m) for m in __import__("re").findall(r"[-+]?(?:\d+\.\d*|\.\d+|\d+)(?:[eE][-+]?\d+)?", txt)]
+                    back = [float(real(v)) for v in nums if v != 0.0]
+                    err = min((abs(abs(b) - abs(want)) for b in back), default=float("inf")) / (abs(want) * eps)
+                    if worst is None or err > worst[1]:
+                        worst = (x, err, txt)
+        name = f"C literals of scalar type {st} read back within one ulp of {real.__name__} (witness family 1+k*eps, 4 bases, real and complex parts)"
+        if worst[1] <= 1.0:
+            rep.ob(name, "proved", "exhaustive-finite", "exhaustive")
+        else:
+            rep.violation(f"literal:{st}", f"{name} fails; witness {worst[0]!r} prints as {worst[2]} = {worst[1]:.3g} ulp off",
+                          dict(obligation=name, witness=repr(worst[0]), printed=worst[2], ulps=worst[1],
+                               how_to_replay=f"Formatter({st!r})._format_number(x)"))
     # round trip on sampled literals (bounded, second opinion)
     import random
 
